@@ -1,4 +1,6 @@
 import HcipyVerif.Lemmas.Layer
+import HcipyVerif.Lemmas.LayerHeap
+import HcipyVerif.Lemmas.ShiftCyc
 
 /-!
 # C15 — Turbulence layers are reproducible and translate rigidly with the wind
@@ -14,9 +16,19 @@ the random generator as an explicit value), the models tied to hcipy by harness/
   `finite_layer_translates`; counterexample `shift_axes_swapped_counterexample` (2×3 grid) for D16;
 * extrusion: `extrude_left/right/top/bottom`, `extrude_moves`, `extrudeN_moves`, `evolve_translates`,
   `screen_shape`, `direction_agrees_with_velocity`; `direction_old_counterexample` for D18;
-* scaling: `phase_inverse_wavelength`, `phase_sqrt_strength`;
+* scaling: `phase_inverse_wavelength`, `sqrt_strength_amplitude`, `phase_sqrt_strength` (induction over every later
+  screen of the infinite layer, numeric `arRun`), `ar_sample_scales`, `synth_scales`;
 * periodicity: `shift_composes`, `shift_period_of_character`, `wrap_onto_one_period_counterexample`;
-* infinite-layer independence: `independent_only_on_request_infinite`, `independent_draws_fresh_numbers_infinite`.
+* infinite-layer independence: `independent_only_on_request_infinite`, `independent_draws_fresh_numbers_infinite`;
+* synthesis executed (`C15 synth`: `Shift.synth` with the exact character into `ℚ[ℤ/M]`, compared with
+  `fourier.backward(C).real`): `synth_cyc_eval`, `synth_cyc_is_character_synth`; `finite_layer_translates` carries the
+  synthesis hypothesis `hback` explicitly; sub-pixel bookkeeping `subpixel_offset_decomposition_partial`;
+* scaling with `Cn_squared` changed on the running layer: `phase_sqrt_strength_live`, `arRunLive_const`;
+* generators as heap cells (`Model/LayerHeap.lean`, driver `hfin`/`hinf`): `heap_simulates_finite/_infinite`,
+  `heap_new_finite/_infinite`, `caller_generator_invisible_finite/_infinite`, `heap_replay_after_reset_finite`;
+  counterexamples `caller_generator_shared_counterexample(_infinite)` (D151), `reset_without_deepcopy_counterexample`;
+* the finite layer's lazy noise / cached screen (`FinC`): `read_after_evolve_is_fresh`, `setter_then_read_is_stale`,
+  `finC_refines_finL`.
 
 Hypothesis used by the spectral theorems: `χ` is an additive character (`χ (a+b) = χ a * χ b`) —
 satisfied by `t ↦ exp(i t)`; the counterexample uses the character `n ↦ (-1)^n` of `ℤ`.
@@ -64,9 +76,31 @@ theorem whole_pixel_exact {K F : Type} [CommRing K] [CommRing F] (χ : K → F)
   rw [shift_theorem χ hχ]
   congr 1 <;> push_cast <;> ring
 
-/-- The finite layer at time `t` shows the `t = 0` screen translated by `velocity · t`:
-`screen_t(x, y) = screen_0(x − vx t, y − vy t)` (with D16 and D17 repaired). -/
-theorem finite_layer_translates {F : Type} [CommRing F] (χ : Rat → F)
+/-- **The finite layer translates with the wind — with the synthesis assumption as a hypothesis.**
+`backward C pts` stands for `fourier.backward(C)` evaluated on the points `pts` of the input grid (FFT on the
+high-frequency scale, MFT on the low-frequency one); `hback` is the kernel specification this framework assumes for it
+(C01–C03 prove it for the FFT/MFT index bookkeeping): it is the character sum `synth`.  Then the screen the layer shows
+at time `t` on the grid is the `t = 0` noise evaluated **on the grid displaced by `−velocity·t`** — which is literally
+what the harness's `translate-any` oracle computes with the real code. -/
+theorem finite_layer_translates {F : Type} [CommRing F] (χ : Rat → F) (hχ : ∀ a b, χ (a + b) = χ a * χ b)
+    (kx ky : List Rat) (backward : List F → List (Rat × Rat) → List F)
+    (hback : ∀ C pts, backward C pts = pts.map fun p => synth χ kx ky C p.1 p.2)
+    (L : FinL) (t : Rat) (C : List F) (pts : List (Rat × Rat)) :
+    backward (shift χ (L.evolve t).center.1 (L.evolve t).center.2 kx ky C) pts
+      = backward C (pts.map fun p => (p.1 - L.vel.1 * t, p.2 - L.vel.2 * t)) := by
+  rw [hback, hback, List.map_map]
+  apply List.map_congr_left
+  intro p _
+  simp only [Function.comp]
+  rw [shift_theorem χ hχ]; rfl
+
+/-- the synthesis hypothesis is satisfiable (by `synth` itself) -/
+example : ∃ backward : List Int → List (Rat × Rat) → List Int,
+    ∀ C pts, backward C pts = pts.map fun p => synth (fun _ => (1 : Int)) [0, 1] [0] C p.1 p.2 :=
+  ⟨fun C pts => pts.map fun p => synth (fun _ => (1 : Int)) [0, 1] [0] C p.1 p.2, fun _ _ => rfl⟩
+
+/-- The same at one point, in terms of `synth` only: `screen_t(x, y) = screen_0(x − vx t, y − vy t)`. -/
+theorem finite_layer_translates_synth {F : Type} [CommRing F] (χ : Rat → F)
     (hχ : ∀ a b, χ (a + b) = χ a * χ b) (L : FinL) (t : Rat) (kx ky : List Rat) (C : List F) (x y : Rat) :
     synth χ kx ky (shift χ (L.evolve t).center.1 (L.evolve t).center.2 kx ky C) x y
       = synth χ kx ky C (x - L.vel.1 * t) (y - L.vel.2 * t) := by
@@ -207,7 +241,7 @@ theorem extrudeN_moves (w : Where) (k : Nat) (L : InfL) (hs : L.screen.length = 
     rfl
   | succ k ih =>
     have hnew : ((List.range (if w.horizontal then L.ny else L.nx)).map
-        (fun j => (⟨L.start, L.hist * 5 + w.code, j, L.par⟩ : Sym))).length = w.slice L.nx L.ny := by
+        (fun j => (⟨L.start, L.hist * 5 + w.code, j, L.par, L.plog⟩ : Sym))).length = w.slice L.nx L.ny := by
       simp [Where.slice]
     have hlen1 : (L.extrude1 w).screen.length = L.ny * L.nx := by
       simp only [InfL.extrude1]
@@ -283,8 +317,8 @@ example : ((InfL.new 3 2 (1/4, 1/4) (1/4, 0) ⟨1, 10⟩ 7).evolveWith sideX sid
 wind: the sample of pixel (1,0) is found at pixel (0,0). -/
 theorem direction_old_counterexample :
     let L := InfL.new 3 2 (1/4, 1/4) (1/4, 0) ⟨1, 10⟩ 7
-    (L.evolveWith sideXOld sideYOld 1).screen[0 * 3 + 0]? = L.screen[0 * 3 + 1]? ∧
-    (L.evolveWith sideXOld sideYOld 1).screen[0 * 3 + 1]? ≠ L.screen[0 * 3 + 0]? := by decide +kernel
+    (L.evolveWith Old.sideX Old.sideY 1).screen[0 * 3 + 0]? = L.screen[0 * 3 + 1]? ∧
+    (L.evolveWith Old.sideX Old.sideY 1).screen[0 * 3 + 1]? ≠ L.screen[0 * 3 + 0]? := by decide +kernel
 
 
 /-- The shape hypothesis of `evolve_translates` holds for every layer that exists: every reset (hence
@@ -451,25 +485,68 @@ theorem phase_inverse_wavelength {K : Type} [Field K] (a l m : K) (hl : l ≠ 0)
   · rw [div_one]
 
 
-/-- **Phase ∝ sqrt(Cn²)**, as algebraic identities.  (1) the amplitudes: if `a₁ = sqrt c`, `a₂ = sqrt (k² c)`
-(`aᵢ ≥ 0`, `aᵢ² = …`) then `a₂ = k·a₁`; (2) the finite layer's sample scales by `k`; (3) so does every new
-row/column element of the infinite layer when the screen it extends is `k` times as large — by induction every
-sample of every later screen. -/
-theorem phase_sqrt_strength {K : Type} [Field K] [LinearOrder K] [IsStrictOrderedRing K] (c k a₁ a₂ : K) (hk : 0 ≤ k) (h₁ : 0 ≤ a₁) (h₂ : 0 ≤ a₂)
-    (e₁ : a₁ ^ 2 = c) (e₂ : a₂ ^ 2 = k ^ 2 * c) :
-    a₂ = k * a₁ ∧ (∀ u : K, finSample a₂ u = k * finSample a₁ u) ∧
-    (∀ A st B rnd : List K, arSample A (st.map (k * ·)) B rnd a₂ = k * arSample A st B rnd a₁) := by
-  have hamp : a₂ = k * a₁ := by
-    have h : (a₂ - k * a₁) * (a₂ + k * a₁) = 0 := by rw [← e₁] at e₂; linear_combination e₂
-    rcases mul_eq_zero.mp h with h | h
-    · linarith
-    · have hka : 0 ≤ k * a₁ := mul_nonneg hk h₁
-      have : a₂ = 0 := by linarith
-      have : k * a₁ = 0 := by linarith
-      linarith
-  refine ⟨hamp, ?_, ?_⟩
-  · intro u; simp only [finSample, hamp]; ring
-  · intro A st B rnd; simp only [arSample, dot_scale, hamp]; ring
+/-- the amplitudes: if `a₁ = sqrt c` and `a₂ = sqrt (k² c)` (`aᵢ ≥ 0`, `aᵢ² = …`) then `a₂ = k·a₁` -/
+theorem sqrt_strength_amplitude {K : Type} [Field K] [LinearOrder K] [IsStrictOrderedRing K] (c k a₁ a₂ : K)
+    (hk : 0 ≤ k) (h₁ : 0 ≤ a₁) (h₂ : 0 ≤ a₂) (e₁ : a₁ ^ 2 = c) (e₂ : a₂ ^ 2 = k ^ 2 * c) : a₂ = k * a₁ := by
+  have h : (a₂ - k * a₁) * (a₂ + k * a₁) = 0 := by rw [← e₁] at e₂; linear_combination e₂
+  rcases mul_eq_zero.mp h with h | h
+  · linarith
+  · have hka : 0 ≤ k * a₁ := mul_nonneg hk h₁
+    have : a₂ = 0 := by linarith
+    have : k * a₁ = 0 := by linarith
+    linarith
+
+/-- **Phase ∝ sqrt(Cn²), infinite layer, every later screen.**  `arRun` is the code's numeric extrusion
+(`A.dot(screen[stencil]) + B.dot(normals)·sqrt(Cn²)`, then the `hstack`/`vstack`/flip surgery), run by the driver on
+the real `A`, `B`, stencils and normals.  If the initial screen of the layer with strength `k²·c` is `k` times the
+initial screen of the layer with strength `c`, then after **any** sequence of extrusions — any sides, any matrices,
+any stencils, any normals, the same for both layers — every sample of the screen is `k` times the other layer's. -/
+theorem phase_sqrt_strength {K : Type} [Field K] [LinearOrder K] [IsStrictOrderedRing K] (c k a₁ a₂ : K)
+    (hk : 0 ≤ k) (h₁ : 0 ≤ a₁) (h₂ : 0 ≤ a₂) (e₁ : a₁ ^ 2 = c) (e₂ : a₂ ^ 2 = k ^ 2 * c)
+    (W H : Nat) (steps : List (ArStep K)) (s : List K) :
+    arRun W H a₂ steps (s.map (k * ·)) = (arRun W H a₁ steps s).map (k * ·) := by
+  rw [sqrt_strength_amplitude c k a₁ a₂ hk h₁ h₂ e₁ e₂]
+  induction steps generalizing s with
+  | nil => rfl
+  | cons e es ih => simp only [arRun]; rw [arExtrude_scale, ih]
+
+/-- **Phase ∝ sqrt(Cn²) with `Cn_squared` changed on the running layer.**  Each extrusion uses the amplitude in force at
+that time (`arRunLive`; the harness changes `Cn_squared` between extrusions on the layer and on its twin).  If the twin's
+amplitudes are `k` times the layer's throughout and its initial screen is `k` times the layer's, every later screen is. -/
+theorem phase_sqrt_strength_live {K : Type} [CommRing K] (k : K) (W H : Nat) (steps : List (ArStep K × K)) (s : List K) :
+    arRunLive W H (steps.map fun p => (p.1, k * p.2)) (s.map (k * ·)) = (arRunLive W H steps s).map (k * ·) := by
+  induction steps generalizing s with
+  | nil => rfl
+  | cons e es ih => obtain ⟨e, a⟩ := e; simp only [List.map_cons, arRunLive]; rw [arExtrude_scale, ih]
+
+/-- `arRun` is `arRunLive` with a constant amplitude -/
+theorem arRunLive_const {K : Type} [CommRing K] (amp : K) (W H : Nat) (steps : List (ArStep K)) (s : List K) :
+    arRunLive W H (steps.map fun e => (e, amp)) s = arRun W H amp steps s := by
+  induction steps generalizing s with
+  | nil => rfl
+  | cons e es ih => simp only [List.map_cons, arRunLive, arRun, ih]
+
+/-- one row/column element: `A·(k·stencil) + B·rnd·(k·amp) = k·(A·stencil + B·rnd·amp)` -/
+theorem ar_sample_scales {K : Type} [CommRing K] (k amp : K) (A st B rnd : List K) :
+    arSample A (st.map (k * ·)) B rnd (k * amp) = k * arSample A st B rnd amp := arSample_scale k amp A st B rnd
+
+/-- **Linearity of the synthesis (finite layer).**  The finite layer's coefficients are `sqrt(psd)`·normals with
+`psd ∝ Cn²` (checked on the real code by the twin-layer oracle); if every coefficient is multiplied by `k`, every
+sample of the synthesised screen is. -/
+theorem synth_scales {K F : Type} [CommRing K] [CommRing F] (χ : K → F) (k : F) (kx ky : List K) (C : List F) (x y : K) :
+    synth χ kx ky (C.map (k * ·)) x y = k * synth χ kx ky C x y := by
+  unfold synth
+  generalize gridX kx ky = A
+  generalize gridY kx ky = B
+  induction C generalizing A B with
+  | nil => simp [zipSum3]
+  | cons c C ih =>
+    cases A with
+    | nil => simp [zipSum3]
+    | cons a A =>
+      cases B with
+      | nil => simp [zipSum3]
+      | cons b B => simp only [List.map_cons, zipSum3, ih]; ring
 
 /-- non-vacuity: `c = 4`, `k = 3`: amplitudes 2 and 6 -/
 example : (0:ℚ) ≤ 3 ∧ (0:ℚ) ≤ 2 ∧ (0:ℚ) ≤ 6 ∧ (2:ℚ) ^ 2 = 4 ∧ (6:ℚ) ^ 2 = 3 ^ 2 * 4 := by norm_num
@@ -555,5 +632,230 @@ pixel size — wind `(1/4, −1/2)` per unit time moves the sample of pixel (0,1
 example : ((InfL.new 3 3 (1/4, 1/2) (1/4, -1/2) ⟨1, 10⟩ 7).evolveWith sideX sideY 1).screen[0 * 3 + 1]?
     = (InfL.new 3 3 (1/4, 1/2) (1/4, -1/2) ⟨1, 10⟩ 7).screen[1 * 3 + 0]? := by decide +kernel
 
+
+/-- **Sub-pixel offset: the decomposition of the centre** (`_partial`: the interpolation operator itself is not
+modelled — the read-out `affine_transform(screen, offset = (−sub/δ)[::-1])` is compared with SciPy by the harness).
+After every `evolve_until` the accumulated displacement is split exactly into the whole pixels the screen has been
+extruded by and the offset handed to the interpolation: `centre = pixel·δ + sub` per axis, each axis with its own
+pixel size; and the whole-pixel part is what `evolve_translates` moves the samples by. -/
+theorem subpixel_offset_decomposition_partial (L : InfL) (t : Rat) :
+    let L' := L.evolveWith sideX sideY t
+    L'.center.1 = pixel L'.center.1 L.delta.1 * L.delta.1 + L'.sub.1 ∧
+    L'.center.2 = pixel L'.center.2 L.delta.2 * L.delta.2 + L'.sub.2 ∧
+    L'.center = (L.center.1 + L.vel.1 * (t - L.t), L.center.2 + L.vel.2 * (t - L.t)) := by
+  simp only [InfL.evolveWith]
+  refine ⟨by ring, by ring, trivial⟩
+
+/-! ## The synthesis hypothesis, executed: `synth` with the exact character into `ℚ[ℤ/M]`
+
+The driver op `C15 synth` runs `Shift.synth` itself with the character `cycChar M : ℚ → ℚ[ℤ/M]` on the real factory's
+frequency axes (in turns), output points and complex coefficients (times the real quadrature weight); the harness
+evaluates the printed coefficient list at `ζ = e^{2πi/M}` and compares with `fourier.backward(C).real` of
+`SpectralNoiseFFT` / `SpectralNoiseMultiscale`.  The two theorems say what that number is. -/
+
+/-- What the driver prints for one point, evaluated at **any** `M`-th root of unity `ζ` of a field of characteristic 0,
+is `synth` over that field with the character `q ↦ ζ^(⌊qM⌋ mod M)` and the coefficients `re + im·ζ^(M/4)`. -/
+theorem synth_cyc_eval {G : Type} [Field G] [CharZero G] (M : Nat) (hM : 0 < M) (ζ : G) (hζ : ζ ^ M = 1)
+    (kx ky cre cim : List Rat) (x y : Rat) :
+    ((List.range M).map fun r =>
+        (((synth (cycChar M) kx ky (List.zipWith Cyc.ofComplex cre cim) x y).coeff r : Rat) : G) * ζ ^ r).sum
+      = synth (fun q => ζ ^ cycExp M q) kx ky (List.zipWith (fun (re im : Rat) => (re : G) + (im : G) * ζ ^ (M / 4)) cre cim) x y := by
+  rw [Cyc.eval_dense ζ hζ hM, synth_map (Cyc.eval ζ) (Cyc.eval_zero ζ) (Cyc.eval_add ζ) (Cyc.eval_mul ζ hζ)]
+  have hχ : (fun q => Cyc.eval ζ (cycChar M q)) = fun q => ζ ^ cycExp M q := by
+    funext q; exact Cyc.eval_mono ζ hζ _
+  have hC : (List.zipWith Cyc.ofComplex cre cim).map (Cyc.eval (M := M) ζ)
+      = List.zipWith (fun (re im : Rat) => (re : G) + (im : G) * ζ ^ (M / 4)) cre cim := by
+    simp only [List.map_zipWith, Cyc.eval_ofComplex]
+  rw [hχ, hC]
+
+/-- **The executed `synth` is the `synth` of the translation theorems.**  For every character `E` of `ℚ` of period 1
+(`E = q ↦ e^{2πi q}`; this is the `χ` of `shift_theorem` / `finite_layer_translates` with the frequencies in turns), if all
+phases `kx[m]·x + ky[n]·y` lie in `(1/M)ℤ` (the driver refuses the request otherwise) and `4 ∣ M`, the printed coefficient
+list evaluated at `ζ = E(1/M)` is `synth E` on the complex coefficients `re + im·E(1/4)`. -/
+theorem synth_cyc_is_character_synth {G : Type} [Field G] [CharZero G] (E : ℚ → G) (hE : ∀ a b, E (a + b) = E a * E b)
+    (h1 : E 1 = 1) (M : Nat) (hM : 0 < M) (h4 : 4 ∣ M) (kx ky cre cim : List Rat) (x y : Rat)
+    (hph : ∀ a ∈ kx, ∀ b ∈ ky, ∃ n : ℤ, (a * x + b * y) * M = n) :
+    ((List.range M).map fun r =>
+        (((synth (cycChar M) kx ky (List.zipWith Cyc.ofComplex cre cim) x y).coeff r : Rat) : G) * E (1 / M) ^ r).sum
+      = synth E kx ky (List.zipWith (fun (re im : Rat) => (re : G) + (im : G) * E (1 / 4)) cre cim) x y := by
+  have hζ : E (1 / M) ^ M = 1 := by
+    rw [← char_nat_mul E hE h1]
+    have : (M : ℚ) * (1 / M) = 1 := by
+      have : (M : ℚ) ≠ 0 := by exact_mod_cast hM.ne'
+      field_simp
+    rw [this, h1]
+  have hi : E (1 / M) ^ (M / 4) = E (1 / 4) := by
+    rw [← char_nat_mul E hE h1]
+    congr 1
+    obtain ⟨k, rfl⟩ := h4
+    have hk : (k : ℚ) ≠ 0 := by
+      have : 0 < k := by omega
+      exact_mod_cast this.ne'
+    rw [Nat.mul_div_cancel_left k (by norm_num)]
+    push_cast
+    field_simp
+  rw [synth_cyc_eval M hM _ hζ, hi]
+  exact synth_congr _ _ _ _ _ _ _ fun a ha b hb => cycExp_agrees E hE h1 hM _ (hph a ha b hb)
+
+/-- the hypotheses are satisfiable: the trivial character, `M = 4`, a 2×1 lattice -/
+example : ∃ E : ℚ → ℚ, (∀ a b, E (a + b) = E a * E b) ∧ E 1 = 1 ∧
+    ∀ a ∈ [(0 : ℚ), 1/4], ∀ b ∈ [(0 : ℚ)], ∃ n : ℤ, (a * 1 + b * 0) * (4 : ℕ) = n :=
+  ⟨fun _ => 1, fun _ _ => by norm_num, rfl, by
+    intro a ha b hb
+    simp only [List.mem_cons, List.not_mem_nil, or_false] at ha hb
+    rcases ha with rfl | rfl <;> subst hb
+    · exact ⟨0, by norm_num⟩
+    · exact ⟨1, by norm_num⟩⟩
+
+/-! ## Generators as heap cells: `deepcopy`, aliasing, a caller-owned generator
+
+`Model/LayerHeap.lean`: the generators live in cells, the layer holds handles, `copy.deepcopy` allocates.  Here a
+missing `deepcopy` *can* be written down (`HL.stepAliased`), and so can a generator shared with the caller
+(`SeedKind.genShared`, `HL.foreignDraw`).  The replay theorems above are about the value-level layers; the
+simulation theorems carry them to the heap layers, which the driver runs (`hfin`, `hinf`) and the harness compares
+with the object identities and generator states of the real layers. -/
+
+/-- **The heap layer with `deepcopy` is the value-level layer** (finite layer, including lazy noise and cached
+screen): from a state with two valid handles to different cells, after any history the state seen through the
+handles is the value-level run, and the handles still point to different cells. -/
+theorem heap_simulates_finite (H : HFin) (hw : H.WF) (h : List COp) :
+    (H.run finAccess h).view finAccess = (H.view finAccess).run h ∧ (H.run finAccess h).WF :=
+  HL.run_view finAccess finAccess_lawful h H hw
+
+theorem heap_simulates_infinite (H : HInf) (hw : H.WF) (h : List Op) :
+    (H.run infAccess h).view infAccess = (H.view infAccess).run h ∧ (H.run infAccess h).WF :=
+  HL.run_view infAccess infAccess_lawful h H hw
+
+/-- Every constructed finite heap layer — whichever way the seed arrives — is in a good state and shows the fresh
+value-level layer; with the snapshot (`SeedKind.gen`) the caller's cell 0 is not one of the layer's. -/
+theorem heap_new_finite (k : SeedKind) (nx ny : Nat) (vel : V2) (par : Par) (g : Rng) :
+    (HFin.new k nx ny vel par g).WF ∧ (HFin.new k nx ny vel par g).view finAccess = FinC.fresh nx ny vel par g ∧
+    (k = .gen → (HFin.new k nx ny vel par g).Sep 0) := by
+  cases k <;> refine ⟨⟨?_, ?_⟩, ?_, ?_⟩ <;> first | decide | rfl | (intro h; cases h) | skip
+  all_goals first | (simp [HFin.new, HL.step, HL.stepWith, HL.view, HL.repoint, finAccess, COp.ptr, HL.Valid, HL.Sep]; done) | skip
+
+theorem heap_new_infinite (k : SeedKind) (nx ny : Nat) (delta vel : V2) (par : Par) (g : Rng) :
+    (HInf.new k nx ny delta vel par g).WF ∧
+    (HInf.new k nx ny delta vel par g).view infAccess = InfL.fresh nx ny delta vel par (g.draw (nx + ny)) ∧
+    (k = .gen → (HInf.new k nx ny delta vel par g).Sep 0) := by
+  cases k <;> refine ⟨⟨?_, ?_⟩, ?_, ?_⟩ <;> first | decide | rfl | (intro h; cases h) | skip
+  all_goals first | (simp [HInf.new, HL.step, HL.stepWith, HL.view, HL.repoint, infAccess, Op.ptrInf, HL.Valid, HL.Sep]; done) | skip
+
+/-- **A caller-owned generator is invisible (repaired construction).**  The layer was built from a `Generator`
+object (cell 0) of which it took a snapshot; whatever the caller draws from its generator, whenever, the layer
+shows exactly what the value-level layer shows under the layer's own operations — in particular every replay theorem
+holds with the caller's draws interleaved anywhere. -/
+theorem caller_generator_invisible_finite (nx ny : Nat) (vel : V2) (par : Par) (g : Rng) (h : List (HOp COp))
+    (hc : ∀ o ∈ h, ∀ c n, o = HOp.foreign c n → c = 0) :
+    ((HFin.new .gen nx ny vel par g).runH finAccess h).view finAccess
+      = (FinC.fresh nx ny vel par g).run (HOp.owns h) := by
+  obtain ⟨hw, hv, hs⟩ := heap_new_finite .gen nx ny vel par g
+  rw [(HL.runH_view finAccess finAccess_lawful 0 h _ hw (hs rfl) hc).1, hv]; rfl
+
+theorem caller_generator_invisible_infinite (nx ny : Nat) (delta vel : V2) (par : Par) (g : Rng) (h : List (HOp Op))
+    (hc : ∀ o ∈ h, ∀ c n, o = HOp.foreign c n → c = 0) :
+    ((HInf.new .gen nx ny delta vel par g).runH infAccess h).view infAccess
+      = (InfL.fresh nx ny delta vel par (g.draw (nx + ny))).run (HOp.owns h) := by
+  obtain ⟨hw, hv, hs⟩ := heap_new_infinite .gen nx ny delta vel par g
+  rw [(HL.runH_view infAccess infAccess_lawful 0 h _ hw (hs rfl) hc).1, hv]; rfl
+
+/-- the hypothesis is satisfiable by a history with interleaved foreign draws -/
+example : ∀ o ∈ [HOp.own (COp.op (.evolve 1)), HOp.foreign 0 3, HOp.own (COp.op (.reset false)), HOp.own COp.read],
+    ∀ c n, o = HOp.foreign c n → c = 0 := by
+  intro o ho c n e; subst e; simp at ho; exact ho.1
+
+/-- **D151 (before the repair): `_original_rng` *is* the caller's generator.**  Build a finite layer from a
+`Generator`, let the caller draw 3 numbers, reset: the layer shows another realisation than before.  With the
+snapshot it shows the same one. -/
+theorem caller_generator_shared_counterexample :
+    let old := HFin.new .genShared 2 2 (1, 0) ⟨1, 10⟩ ⟨7, 0⟩
+    let new := HFin.new .gen 2 2 (1, 0) ⟨1, 10⟩ ⟨7, 0⟩
+    (((old.foreignDraw 0 3).step finAccess (.op (.reset false))).view finAccess).shown ≠ (old.view finAccess).shown ∧
+    (((new.foreignDraw 0 3).step finAccess (.op (.reset false))).view finAccess).shown = (new.view finAccess).shown := by
+  decide +kernel
+
+/-- the same for the infinite layer (the initial screens differ sample by sample) -/
+theorem caller_generator_shared_counterexample_infinite :
+    let old := HInf.new .genShared 2 2 (1, 1) (1, 0) ⟨1, 10⟩ ⟨7, 0⟩
+    let new := HInf.new .gen 2 2 (1, 1) (1, 0) ⟨1, 10⟩ ⟨7, 0⟩
+    (((old.foreignDraw 0 3).step infAccess (.reset false)).view infAccess).view ≠ (old.view infAccess).view ∧
+    (((new.foreignDraw 0 3).step infAccess (.reset false)).view infAccess).view = (new.view infAccess).view := by
+  decide +kernel
+
+/-- **`self.rng = self._original_rng` without `deepcopy` breaks the replay (finite layer).**  With the plain
+assignment the noise is drawn *from the original generator itself*; the second reset therefore starts from an
+advanced generator and shows another realisation.  With `deepcopy` it shows the same one. -/
+theorem reset_without_deepcopy_counterexample :
+    let H := HFin.new .int 2 2 (1, 0) ⟨1, 10⟩ ⟨7, 0⟩
+    let r : COp := .op (.reset false)
+    (((H.stepAliased finAccess r).stepAliased finAccess r).view finAccess).shown ≠ (H.view finAccess).shown ∧
+    ((H.stepAliased finAccess r).stepAliased finAccess r).rngH = ((H.stepAliased finAccess r).stepAliased finAccess r).origH ∧
+    (((H.step finAccess r).step finAccess r).view finAccess).shown = (H.view finAccess).shown := by
+  decide +kernel
+
+/-- **Replay after reset, heap form (finite layer)**: build the layer any way (`k`), run any history of the layer's
+own operations without an independent reset — evolutions, plain resets, parameter changes, reads (lazy re-draws) —
+and reset: seen through the handles the layer is the freshly built layer with the parameters in force, so it shows the
+same screens under every later history. -/
+theorem heap_replay_after_reset_finite (k : SeedKind) (nx ny : Nat) (vel : V2) (par : Par) (g : Rng) (h₁ h : List COp)
+    (hh : ∀ o ∈ h₁, o ≠ .op (.reset true)) :
+    let H := (HFin.new k nx ny vel par g).run finAccess h₁
+    let C := H.view finAccess
+    ((H.step finAccess (.op (.reset false))).run finAccess h).view finAccess
+      = (FinC.fresh nx ny C.base.vel C.base.par g).run h := by
+  intro H C
+  obtain ⟨hw, hv, _⟩ := heap_new_finite k nx ny vel par g
+  obtain ⟨e1, w1⟩ := heap_simulates_finite _ hw h₁
+  obtain ⟨e2, w2, d2, _⟩ := HL.step_view finAccess finAccess_lawful H (.op (.reset false)) w1.1 (Or.inl w1.2)
+  rw [(heap_simulates_finite _ ⟨w2, d2⟩ h).1, e2]
+  congr 1
+  have hk := FinC.run_keeps (FinC.fresh nx ny vel par g) h₁ hh
+  have hC : C = (FinC.fresh nx ny vel par g).run h₁ := by rw [← hv]; exact e1
+  show FinC.step C (.op (.reset false)) = _
+  rw [FinC.reset_false_eq_fresh, hC, hk.1, hk.2.1, hk.2.2]
+  rfl
+
+/-! ## The finite layer's lazy noise and cached screen (`FinC`) -/
+
+/-- **A parameter change on a running layer re-draws the same realisation.**  From a layer built with generator
+state `g`, after any history without an independent reset (parameter changes at any point, no reset needed), the
+first read after an `evolve_until(t)` shows the realisation of `g` made with the *current* parameters, displaced by
+`velocity·t` — exactly what a freshly built layer with the current parameters shows at time `t`. -/
+theorem read_after_evolve_is_fresh (nx ny : Nat) (vel : V2) (par : Par) (g : Rng) (h : List COp) (t : Rat)
+    (hh : ∀ o ∈ h, o ≠ .op (.reset true)) :
+    let C := (FinC.fresh nx ny vel par g).run h
+    (C.step (.op (.evolve t))).shown = (g, C.base.par, (C.base.vel.1 * t, C.base.vel.2 * t)) ∧
+    (C.step (.op (.evolve t))).shown
+      = ((FinC.fresh nx ny C.base.vel C.base.par g).step (.op (.evolve t))).shown := by
+  intro C
+  have hJ : C.Live g := FinC.run_live _ h g (FinC.fresh_live nx ny vel par g) hh
+  exact ⟨FinC.shown_after_evolve C g t hJ,
+    (FinC.shown_after_evolve C g t hJ).trans (FinC.shown_after_evolve _ g t (FinC.fresh_live _ _ _ _ g)).symm⟩
+
+/-- the history hypothesis is satisfiable with setters and reads in the middle of a run -/
+example : ∀ o ∈ [COp.op (.evolve 1), COp.read, COp.op (.setCn2 4), COp.read, COp.op (.evolve 2), COp.read],
+    o ≠ COp.op (.reset true) := by decide
+
+/-- **The cached screen survives a setter (the code as it is).**  `Cn_squared = c` / `outer_scale = l` drop `_noise`
+but not `_achromatic_screen`: a read directly after the setter still shows the screen cached before it; only after
+the next `evolve_until` (or `reset`) does the change show (`read_after_evolve_is_fresh`).  With the cache dropped by
+the setter too (`FinC.stepInval`) the read shows the current parameters at once. -/
+theorem setter_then_read_is_stale (C : FinC) (s : Rng × Par × V2) (c : Rat) (hc : C.cache = some s) :
+    (C.step (.op (.setCn2 c))).shown = s ∧ (C.step (.op (.setL0 c))).shown = s ∧
+    (C.stepInval (.op (.setCn2 c))).shown = (C.base.orig, { C.base.par with cn2 := c }, C.base.center) := by
+  rcases C with ⟨b, v, ca⟩
+  simp only at hc
+  subst hc
+  simp [FinC.step, FinC.stepInval, FinC.shown, FinC.read, FinL.redraw, FinL.makeNoise, FinL.screen, FinL.setCn2, FinL.setL0]
+
+/-- `FinC` is `FinL` plus the two flags: every operation except a read acts on the bookkeeping exactly as the
+value-level finite layer does; a read changes it only by the lazy re-draw. -/
+theorem finC_refines_finL (C : FinC) (o : Op) :
+    (C.step (.op o)).base = C.base.step o ∧ (C.valid = true → (C.step .read).base = C.base) := by
+  constructor
+  · cases o <;> rfl
+  · intro hv
+    rcases C with ⟨b, v, ca⟩
+    cases ca <;> simp_all [FinC.step, FinC.read]
 
 end HcipyVerif.C15
